@@ -169,7 +169,7 @@ def _compare(ctx, op, cell, backend, got_kind, ref, a, b, s_in, tol, q):
             ctx.exclude("result_not_representable")
             return False
         if not backend.endswith("mp") and len(sysr) >= 2 and sysr[1] in ("theta", "eta") and \
-                R.rho2(ref) < (mpf("1e-6") * R.scale_of(a, b, ref)) ** 2:
+                R.rho2(ref) < (mpf("1e-3") * R.scale_of(a, b, ref)) ** 2:
             # float64: a result that cancelled onto the z axis is ill-conditioned in theta / eta storage
             ctx.exclude("ill_conditioned_result")
             return False
